@@ -177,7 +177,9 @@ func theAxes(thorough bool) axes {
 		uiBases:    []string{unset, "other"},
 		uiPaths:    []string{unset, "/ui/x"},
 		apiSpecURLs: []string{unset, "/x/spec.json", "https://h/x/y/openapi.json?v=1", "spec.json", "x/spec.json",
-			"/x/y/", "/base/op", "/docs", "/x/" + mk("Sq") + ".json"},
+			"/x/y/", "/base/op", "/docs", "/x/" + mk("Sq") + ".json",
+			// paths that need percent-escapes: space; non-ASCII and an escaped reserved character ('+') in an absolute URL
+			"/x/my%20spec.json", "https://h/x/caf%C3%A9%2Bv1.json"},
 		methods: []string{"GET", "HEAD", "POST"},
 	}
 	if thorough {
@@ -191,7 +193,7 @@ func theAxes(thorough bool) axes {
 		a.apiBases = []string{unset, "", "/", "/base", "base", "/base/"}
 		a.uiBases = []string{unset, "/other", "other"}
 		a.uiPaths = []string{unset, "/ui/x", "/"}
-		a.apiSpecURLs = append(a.apiSpecURLs, "https://h/x/y/openapi.json", "//h/x/spec.json", "/x/spec.json?v=1", "/swagger.json", "http://h:8080/openapi.json?v=1#frag", "/x/my%20spec.json",
+		a.apiSpecURLs = append(a.apiSpecURLs, "https://h/x/y/openapi.json", "//h/x/spec.json", "/x/spec.json?v=1", "/swagger.json", "http://h:8080/openapi.json?v=1#frag", "//h/x/%E6%97%A5%E6%9C%AC%20v1.json",
 			"/x//y/../spec.json", "/op", "/base/docs", "https://h", "", "/x/a%2Fb.json", "../spec.json")
 		a.methods = []string{"GET", "HEAD", "POST", "OPTIONS"}
 	}
@@ -371,6 +373,97 @@ func apiConfigs(kind string, a axes) [][]Config {
 	return groups
 }
 
+// ---- construction sequences ----
+
+// seqAlphabet is the stated list of configurations that are constructed together in one process:
+// every flavour, with outputs that differ in length and content (defaults / custom template with
+// markers / other base, title and spec URL), two Spec middlewares with different documents, and
+// the three API-handler flavours with and without options.
+func seqAlphabet() []Config {
+	var s []Config
+	for _, k := range []string{"redoc", "rapidoc", "swaggerui", "oauth2cb"} {
+		s = append(s,
+			Config{Kind: k, Next: true, Opts: map[string]string{}},
+			Config{Kind: k, Next: true, Opts: map[string]string{"Title": mk("Tq"), "SpecURL": "/x/spec.json", "Template": customTemplate(k)}},
+			Config{Kind: k, Next: true, Opts: map[string]string{"BasePath": "/base", "Title": "Other API", "SpecURL": "https://h/x/y/openapi.json"}})
+	}
+	s = append(s,
+		Config{Kind: "spec", Next: true, SpecBytes: `{"swagger":"2.0","info":{"title":"one","version":"1"},"paths":{}}`},
+		Config{Kind: "spec", Next: true, SpecBase: "/base", SpecOpts: []KV{{"WithSpecDocument", "openapi.json"}}, SpecBytes: `{"swagger":"2.0","info":{"title":"another, longer document","version":"2"},"paths":{}}` + "\n"})
+	for _, k := range []string{"api-redoc", "api-rapidoc", "api-swaggerui"} {
+		s = append(s,
+			Config{Kind: k, NoAPIBase: true},
+			Config{Kind: k, NoAPIBase: true, UIOpts: []KV{{"WithUISpecURL", "/x/spec.json"}, {"WithUITitle", "Second title"}, {"WithUIPath", "ui"}}})
+	}
+	return s
+}
+
+func docTarget(c Config) string { return enc(buildModel(c).Locs[0].Path) }
+
+func sequences(r *report.R) map[string]any {
+	s := seqAlphabet()
+	var cases []Case
+	mkCase := func(i int, before, then []Config) Case {
+		return Case{Cfg: s[i], Before: before, Then: then, Method: "GET", Target: docTarget(s[i])}
+	}
+	pairs, triples := 0, 0
+	for i := range s {
+		for j := range s {
+			if i == j {
+				continue
+			}
+			cases = append(cases, mkCase(i, nil, []Config{s[j]}))
+			pairs++
+			if r.Thorough() {
+				for k := range s {
+					if k != i && k != j {
+						cases = append(cases, mkCase(i, nil, []Config{s[j], s[k]}))
+						triples++
+					}
+				}
+			}
+		}
+	}
+	rev := func(x []Config) []Config {
+		o := make([]Config, len(x))
+		for i := range x {
+			o[len(x)-1-i] = x[i]
+		}
+		return o
+	}
+	for i := range s {
+		cases = append(cases, mkCase(i, s[:i], s[i+1:]))           // forward list
+		cases = append(cases, mkCase(i, rev(s[i+1:]), rev(s[:i]))) // backward list
+	}
+	// pairs and lists run on one goroutine (back-to-back constructions, as at process start-up);
+	// the thorough triples are spread over the cores
+	run := func(c Case) {
+		cl, what := checkSeq(c)
+		r.Eval(3)
+		r.Nontrivial(3)
+		if cl != "" {
+			r.Fail(cl, what, c)
+			r.Outcome("sequence:"+cl, 1)
+		} else {
+			r.Outcome("sequence:same-answer-as-alone", 1)
+		}
+	}
+	var serial, par []Case
+	for _, c := range cases {
+		if len(c.Then) == 2 && len(c.Before) == 0 {
+			par = append(par, c)
+		} else {
+			serial = append(serial, c)
+		}
+	}
+	for _, c := range serial {
+		run(c)
+	}
+	enum.Parallel(len(par), r.OutOfTime, func(i int) { run(par[i]) })
+	return map[string]any{"alphabet_size": len(s), "ordered_pairs": pairs, "ordered_triples": triples, "forward_backward_list_cases": 2 * len(s),
+		"oracle": "answer of the handler built from A (GET on its document location) right after its construction and again after the later constructions equals the answer of A built alone"}
+}
+
 // ---- driver ----
 
 type tally struct {
@@ -465,6 +558,9 @@ func main() {
 		}
 	}
 
+	// construction sequences (state that survives a construction): before the parallel sweep
+	seqStats := sequences(r)
+
 	// direct kinds
 	var direct []Config
 	direct = append(direct, specConfigs(a, r.Thorough())...)
@@ -504,6 +600,7 @@ func main() {
 		kinds = append(kinds, k)
 	}
 	sort.Strings(kinds)
+	r.Set("construction_sequences", seqStats)
 	r.Set("configurations_per_kind", perKind)
 	r.Set("configurations", nConfigs)
 	r.Set("request_targets_total", nTargets)
@@ -516,5 +613,5 @@ func main() {
 	r.Assume("model.go is the reading of the property text: MUST locations only for absolute configurations of plain segments; relative / dot-segment / document-less / non-RFC spec URLs and non-GET methods are MAY",
 		"requests are produced by http.ReadRequest from a request line, so only origin-form, absolute-form and '*' targets occur",
 		"api kinds: 'handed to the next handler unmodified' is decided differentially against Context.RoutesHandler on a twin API of the same description")
-	r.Finish("full product of the stated option axes for Spec, Redoc, RapiDoc, SwaggerUI, SwaggerUIOAuth2Callback (with and without next handler) and for APIHandler / APIHandlerRapiDoc / APIHandlerSwaggerUI, x every request target derived from each configuration's document locations (exact, trailing slash, dot segments, doubled and encoded slashes, query, absolute form, every prefix, extensions, sibling, case, NUL/space suffix) plus fixed and operation paths, x methods; one evaluation = one request through the real handler (api kinds: plus the routes-only twin); non-trivial = the target is derived from a document location or a document was served (distinct by construction: configurations, targets and methods are enumerated without repetition)", true)
+	r.Finish("full product of the stated option axes for Spec, Redoc, RapiDoc, SwaggerUI, SwaggerUIOAuth2Callback (with and without next handler) and for APIHandler / APIHandlerRapiDoc / APIHandlerSwaggerUI, x every request target derived from each configuration's document locations (exact, trailing slash, dot segments, doubled and encoded slashes, query, absolute form, every prefix, extensions, sibling, case, NUL/space suffix) plus fixed and operation paths, x methods; one evaluation = one request through the real handler (api kinds: plus the routes-only twin); non-trivial = the target is derived from a document location or a document was served (distinct by construction: configurations, targets and methods are enumerated without repetition). Plus construction sequences in one process over the stated 20-configuration alphabet (all ordered pairs A,B: build A, GET A's document, build B, GET A's document again; thorough also all ordered triples; the whole list built forward and backward with every member requested after the last construction): every answer must equal the answer of the same configuration built alone", true)
 }
